@@ -390,7 +390,18 @@ func c20Serve(c *Ctx) {
 	c.R.Floor("R-C20-4", 2)
 }
 
-func c20Signal(c *Ctx) { signalOrder(c, "R-C20-3") }
+func c20Signal(c *Ctx) {
+	signalOrder(c, "R-C20-3")
+	// one terminator per Server for its whole life: the tasks BuildTasks creates bind s.t.terminate, the
+	// signal task Serve creates records into s.t — they must be the same object
+	n := 0
+	for _, fs := range an.FindFieldStores(c.srcFuncs(), PkgCorerad, "Server", "t") {
+		n++
+		c.R.Check(c.fname(fs.Fn) == "corerad.NewServer", "R-C20-3", c.fname(fs.Fn)+":writes-Server.t", c.fname(fs.Fn), c.pos(fs.Store.Pos()), "Server.t assigned in "+c.fname(fs.Fn),
+			"the terminator is created once, by NewServer", "tasks built earlier read a terminator the signal task no longer writes: a terminating signal looks like a reload")
+	}
+	c.R.Check(n >= 1, "R-C20-3", "corerad.Server.t:writers", "", "", fmt.Sprintf("%d store(s)", n), ">= 1 (NewServer)", "anchor-missing")
+}
 
 // signalOrder: terminator.set(sig) precedes cancel() in signalTask.Run.
 func signalOrder(c *Ctx, rule string) {
